@@ -28,8 +28,6 @@ Fixpoint faced (sh : shape) (ix : index) : list (ientry * Z) :=
 Definition faced_of (sh : shape) (ix : index) : list (ientry * Z) :=
   match expand (Z.of_nat (length sh)) ix with Ok ex => faced sh ex | Raise _ => [] end.
 
-Definition slice_d1 (e : ientry) : bool :=
-  match e with ISlice _ b c => d1_clause b c | _ => true end.
 Definition slice_neg (e : ientry) : bool :=
   match e with ISlice _ _ (Some c) => c <? 0 | _ => false end.
 Definition all_arrays (ix : index) : bool :=
@@ -42,11 +40,7 @@ Definition arr_needs_wrap (p : ientry * Z) : bool :=
   end.
 
 Definition clause_of (fmt : Z) (unsigned : bool) (sh : shape) (ix : index) : Z :=
-  let fc := faced_of sh ix in
-  if negb (forallb slice_d1 ix) then 1                                    (* D1 *)
-  else if (fmt =? fmt_dok) && negb (all_arrays ix)
-          && negb (forallb (fun p => twice_same (fst p) (snd p)) fc) then 2  (* D23 *)
-  else if unsigned && existsb slice_neg ix then 3                         (* D6 *)
+  if unsigned && existsb slice_neg ix then 3                         (* D6 *)
   else if (fmt =? fmt_gcxs) && (1 <? countb is_iarr ix) then 4            (* D21 *)
   else if (fmt =? fmt_gcxs)
           && (match sh with [] => true | _ => false end
